@@ -73,6 +73,9 @@ class Contract:
         # call sites do not branch on it (an internal consistency error aborts the request; the callers' contracts say
         # nothing about such a path, exactly as when the callee's contract was an assumed one without it)
         self.may_raise_internal = kw.pop("may_raise_internal", {})
+        # obligation-name fragments that are counted only under the properties of partial_props that name them, not
+        # under the contract's own properties
+        self.only_partial = tuple(kw.pop("only_partial", ()))
         if kw:
             raise TypeError(f"unknown contract fields {list(kw)}")
 
